@@ -22,6 +22,7 @@ from ..core import hx, unhx, parallel_map, LEAN, BUILD
 from .. import termmodel as T
 
 DRIVERS = ["drv_style"]
+GENERATED = ["StyleGuards"]     # the rest is found through the imports of Props.C12 / Driver.Style
 
 
 _SIG_COUNT = {}
@@ -1577,6 +1578,396 @@ def _corr_draw_header(ctx, rep, corr):
                            impl=[m.decode("utf-8", "replace") for m in impl_lines] if impl_lines else None))
 
 
+# --------------------------------------------------------------------------- a style option and the OTHER style options
+
+# Which text which hunk-line option governs (delta --help): `X-style` = removed / added lines; `X-emph-style` = the
+# emphasized (changed) sections of a line that has a partner; `X-non-emph-style` = the non-emphasized sections of such a
+# line (default: `X-style`). One hunk per situation; `…q` words are unique needles.
+INTERPLAY_HUNKS = [
+    (["minusq solo"], []),
+    ([], ["plusq solo"]),
+    (["alpha betaq gamma"], ["alpha deltaq gamma"]),
+    (["kappa lambdaq mu", "wholly different removed words here unpairedq"], ["kappa sigmaq mu"]),
+    (["omega rhoq tau"], ["omega piq tau  "]),
+    (["upsilon phi chiq"], ["upsilon phi psiq"]),
+]
+# (row needle, side, has a partner, words the emph style governs, words the non-emph / line style governs)
+INTERPLAY_ROWS = [
+    ("minusq", "minus", False, [], ["minusq", "solo"]),
+    ("plusq", "plus", False, [], ["plusq", "solo"]),
+    ("betaq", "minus", True, ["betaq"], ["alpha", "gamma"]),
+    ("deltaq", "plus", True, ["deltaq"], ["alpha", "gamma"]),
+    ("lambdaq", "minus", True, ["lambdaq"], ["kappa", "mu"]),
+    ("unpairedq", "minus", False, [], ["wholly", "different", "removed", "words", "here", "unpairedq"]),
+    ("sigmaq", "plus", True, ["sigmaq"], ["kappa", "mu"]),
+    ("rhoq", "minus", True, ["rhoq"], ["omega", "tau"]),
+    ("piq", "plus", True, ["piq"], ["omega", "tau"]),
+    ("chiq", "minus", True, ["chiq"], ["upsilon", "phi"]),
+    ("psiq", "plus", True, ["psiq"], ["upsilon", "phi"]),
+]
+
+
+def _interplay_diff():
+    out = ["diff --git a/fileq.zzz b/fileq.zzz", "index 1111111..2222222 100644", "--- a/fileq.zzz", "+++ b/fileq.zzz"]
+    for k, (ms, ps) in enumerate(INTERPLAY_HUNKS):
+        a = 10 * k + 1
+        out.append("@@ -%d,%d +%d,%d @@ fragq" % (a, 1 + len(ms), a, 1 + len(ps)))
+        out.append(" zeroq%d" % k)
+        out += ["-" + l for l in ms] + ["+" + l for l in ps]
+    return ("\n".join(out) + "\n").encode()
+
+
+INTERPLAY_DIFF = _interplay_diff()
+INTERPLAY_ARGS = ["--syntax-theme=none", "--paging=never", "--width=70", "--line-fill-method=spaces",
+                  "--file-decoration-style=none", "--hunk-header-decoration-style=none"]
+# relation of the three strings (X-style, X-emph-style, X-non-emph-style); None = option not given
+TRIPLE_PATTERNS = ["all-different", "emph=non-emph", "emph=non-emph-respelt", "all-equal", "emph=plain",
+                   "non-emph=plain", "non-emph-unset", "non-emph-ref-emph", "non-emph-ref-plain"]
+_PLAIN_COLOURS = BASIC + ["bright-" + c for c in BASIC]
+
+
+def gen_plain_style(rng):
+    """A style of the grammar with explicit colours only (no auto / syntax / omit / raw): what it denotes does not depend
+    on the option it is given to. Colour words are canonical (no aliases), so equal denotation <=> equal words."""
+    def colour():
+        k = rng.random()
+        if k < 0.35:
+            return rng.choice(_PLAIN_COLOURS)
+        if k < 0.7:
+            return str(rng.randint(16, 255))
+        return "#%06x" % rng.randrange(1 << 24)
+    while True:
+        attrs = rng.sample(ATTR_WORDS, rng.choice([0, 0, 1, 1, 2, 3]))
+        k = rng.random()
+        cols = ["normal", colour()] if k < 0.35 else [colour(), colour()] if k < 0.75 else [colour()] if k < 0.9 else []
+        words = attrs + cols
+        if not words:
+            continue
+        # attribute words anywhere, colour words in order
+        out, ci = [], 0
+        slots = sorted(rng.sample(range(len(words)), len(cols)))
+        ai = iter(rng.sample(attrs, len(attrs)))
+        for i in range(len(words)):
+            if i in slots:
+                out.append(cols[ci]); ci += 1
+            else:
+                out.append(next(ai))
+        return " ".join(out)
+
+
+def _denotation(s):
+    w = oracle_parse(s)
+    return (tuple(w["colors"]), frozenset(w["attrs"]))
+
+
+def respell(rng, s):
+    """The same style written differently: attribute words moved, letter case mixed, words quoted, other separators."""
+    ws = s.split()
+    cols = [w for w in ws if w not in ATTR_WORDS]
+    attrs = [w for w in ws if w in ATTR_WORDS]
+    for _ in range(20):
+        rng.shuffle(attrs)
+        slots = sorted(rng.sample(range(len(ws)), len(cols)))
+        out, ci, ai = [], 0, iter(attrs)
+        for i in range(len(ws)):
+            if i in slots:
+                out.append(cols[ci]); ci += 1
+            else:
+                out.append(next(ai))
+        t = mess_case(rng, " ".join(out))
+        if t != s:
+            return t
+    return s.upper()
+
+
+def _triple(rng, pattern, side):
+    """(X-style, X-emph-style, X-non-emph-style) strings for a relation."""
+    while True:
+        a, b, c = gen_plain_style(rng), gen_plain_style(rng), gen_plain_style(rng)
+        if len({_denotation(a), _denotation(b), _denotation(c)}) == 3:
+            break
+    return {"all-different": (a, b, c), "emph=non-emph": (a, b, b), "emph=non-emph-respelt": (a, b, respell(rng, b)),
+            "all-equal": (a, a, a), "emph=plain": (a, a, c), "non-emph=plain": (a, b, a), "non-emph-unset": (a, b, None),
+            "non-emph-ref-emph": (a, b, side + "-emph-style"), "non-emph-ref-plain": (a, b, side + "-style")}[pattern]
+
+
+def _relation(role, plain, emph, nonemph):
+    """How the string of `role` relates to the other two of its triple (names the input class in signatures)."""
+    me = {"plain": plain, "emph": emph, "non-emph": nonemph}[role]
+    if me is None:
+        return "unset"
+    if me.endswith("-style") and " " not in me:
+        return "reference-to-" + ("emph" if "emph" in me else "plain")
+    others = [(n, v) for n, v in (("plain", plain), ("emph", emph), ("non-emph", nonemph)) if n != role
+              and v is not None and not (v.endswith("-style") and " " not in v)]
+    same = [n for n, v in others if _denotation(v) == _denotation(me)]
+    respelt = any(_denotation(v) == _denotation(me) and v != me for n, v in others)
+    if len(same) == 2:
+        r = "equal-to-both"
+    elif same:
+        r = "equal-to-" + same[0]
+    else:
+        r = "differs-from-both"
+    return r + ("-respelt" if respelt else "")
+
+
+def _guards_model(reqs):
+    """DeltaModel/StyleGuardsRun.lean (interpreted: no lean_exe is registered for it)."""
+    import subprocess
+    from ..core import lake_build
+    ok, blog = lake_build(["DeltaModel.StyleGuards", "DeltaModel.Proto"])
+    if not ok or not os.path.exists(os.path.join(LEAN, "DeltaModel", "StyleGuardsRun.lean")):
+        return None, blog[-600:]
+    p = subprocess.run(["lake", "env", "lean", "--run", "DeltaModel/StyleGuardsRun.lean"], cwd=LEAN,
+                       input="\n".join(reqs) + "\n", stdout=subprocess.PIPE, stderr=subprocess.STDOUT, text=True)
+    ans = [l for l in p.stdout.split("\n") if l.strip()]
+    if p.returncode != 0 or len(ans) != len(reqs):
+        return None, p.stdout[-600:]
+    return ans, ""
+
+
+def _interplay_annotation(ctx):
+    """The implementation's own annotation of the lines of INTERPLAY_HUNKS (hooked `edits::infer_edits` with tags):
+    per hunk (minus lines, plus lines) -> per line (sections [(is changed, text)], has a partner)."""
+    reqs = []
+    for ms, ps in INTERPLAY_HUNKS:
+        parts = ["edits.infer %s 0.6 0.0 1 3" % hx("\\w+"), str(len(ms))]
+        for l in ms:
+            parts += [hx(l + "\n"), "0", "L;"]
+        parts.append(str(len(ps)))
+        for l in ps:
+            parts += [hx(l + "\n"), "2", "L;"]
+        reqs.append(" ".join(parts))
+    ans = ctx.hook().ask(reqs)
+    out = {}
+    for (ms, ps), a in zip(INTERPLAY_HUNKS, ans):
+        if not a.startswith("ok "):
+            return None
+        kv = dict(f.split("=", 1) for f in a.split(" ")[1:] if "=" in f)
+        hm, hp = kv["H"].split(":")
+
+        def lines(v):
+            n, _, body = v.partition(";")
+            res = []
+            for x in (body.split("|") if int(n) > 0 else []):
+                secs = []
+                for part in (x.split(",") if x else []):
+                    tag, h = part.split(":")
+                    secs.append((int(tag), bytes.fromhex(h).decode("utf-8", "replace")))
+                res.append(secs)
+            return res
+        for side, ls, secs_l, hs, emph_tag in (("minus", ms, lines(kv["M"]), hm, 1), ("plus", ps, lines(kv["P"]), hp, 3)):
+            if len(secs_l) != len(ls) or len(hs) != len(ls):
+                return None
+            for l, secs, h in zip(ls, secs_l, hs):
+                out[(side, l)] = ([(tag == emph_tag, t) for tag, t in secs], h == "1")
+    return out
+
+
+def other_options_oracle(ctx, rep, baseline=None):
+    """A style option is painted as given **whatever the values of the other style options are**.
+
+    (1) hunk-line triples: (X-style, X-emph-style, X-non-emph-style) for X = minus and plus, set to strings that are all
+    different / emph = non-emph (also written differently) / all three equal / emph = plain / non-emph = plain /
+    non-emph not given / non-emph a reference to the emph or the plain option; command line or `[delta]` section; both
+    colour depths. Direct oracle (the property, from `delta --help`): on every removed / added line the changed word of a
+    paired line carries exactly what the string given to X-emph-style denotes, the other words of a paired line what the
+    string given to X-non-emph-style denotes (not given: X-style's), the words of an unpaired line X-style's.
+    Correspondence `guards.line`: every character of every hunk line against the Lean model (`StyleGuards.paintedLine` over
+    the regenerated tables), fed with the implementation's own annotation of the lines (hooked `edits.infer`).
+    (2) groups of other options given one and the same string (line-number styles, hunk-header styles, commit / file,
+    zero / minus / plus, the emph styles of both sides, …): each still shows its own string's denotation."""
+    rng = ctx.rng
+    jobs = []
+    reps = ctx.n(2, 30)
+    for r in range(reps):
+        for k, pat in enumerate(TRIPLE_PATTERNS):
+            for lead in ("minus", "plus"):
+                other = "plus" if lead == "minus" else "minus"
+                pats = {lead: pat, other: rng.choice(TRIPLE_PATTERNS)}
+                triples = {sd: _triple(rng, pats[sd], sd) for sd in ("minus", "plus")}
+                assign = {}
+                for sd in ("minus", "plus"):
+                    for role, v in zip(("-style", "-emph-style", "-non-emph-style"), triples[sd]):
+                        if v is not None:
+                            assign[sd + role] = v
+                assign["zero-style"] = gen_plain_style(rng)
+                assign["whitespace-error-style"] = gen_plain_style(rng)
+                source = "gitconfig" if (r * len(TRIPLE_PATTERNS) + k) % 6 == 5 else "cli"
+                jobs.append(dict(pats=pats, triples=triples, assign=assign, tc=(r + k) % 2, source=source))
+    homes = {}
+    for j in jobs:
+        depth = "--true-color=" + ("always" if j["tc"] else "never")
+        if j["source"] == "cli":
+            j["args"] = ["--no-gitconfig", depth] + INTERPLAY_ARGS + ["--%s=%s" % kv for kv in sorted(j["assign"].items())]
+            j["env"], j["gitconfig"] = {}, None
+        else:
+            body = "[delta]\n" + "".join('    %s = "%s"\n' % (o, v.replace("\\", "\\\\").replace('"', '\\"'))
+                                        for o, v in sorted(j["assign"].items()))
+            import hashlib
+            name = "interplay-" + hashlib.sha1(body.encode()).hexdigest()[:12]
+            homes[name] = body
+            j["args"], j["gitconfig"] = [depth] + INTERPLAY_ARGS, body
+            j["env"] = {"HOME": os.path.join(BUILD, "home-c12-" + name)}
+    for name, body in homes.items():               # written before any run starts
+        _home_with_gitconfig(name, body)
+    results = parallel_map(lambda j: ctx.run_delta(j["args"], INTERPLAY_DIFF, env=j["env"]), jobs)
+    annotation = _interplay_annotation(ctx)
+    if annotation is None:
+        rep.corr_case("guards.line", False, dict(error="hooked edits.infer did not answer for the lines of INTERPLAY_HUNKS"))
+    mreqs, mctx = [], []
+    for j, (rc, out, err) in zip(jobs, results):
+        replay = dict(kind="interplay", args=j["args"], env=j["env"], gitconfig=j["gitconfig"], stdin="INTERPLAY_DIFF",
+                      patterns=j["pats"], assign=j["assign"], true_color=j["tc"], source=j["source"])
+        rep.case(key=("interplay", tuple(sorted(j["assign"].items())), j["tc"], j["source"]), nontrivial=True,
+                 sample=dict(op="interplay", patterns=j["pats"], assign=j["assign"], true_color=j["tc"], source=j["source"], rc=rc))
+        for sd in ("minus", "plus"):
+            rep.count("interplay:%s:%s" % (sd, j["pats"][sd]))
+        if rc != 0:
+            _viol(rep, "given:style-rejected", "delta fails on style strings of the grammar",
+                  dict(replay, rc=rc, stderr=err.decode("utf-8", "replace")[-300:]))
+            continue
+        dec = T.decode(out)
+        # what each option's string denotes; a reference / an option not given denotes what its target's string does
+        denote = {}
+        for sd in ("minus", "plus"):
+            plain, emph, nonemph = j["triples"][sd]
+            target = {None: plain, sd + "-emph-style": emph, sd + "-style": plain}.get(nonemph, nonemph)
+            denote[sd] = {"plain": plain, "emph": emph, "non-emph": target}
+        rows = {}
+        for needle, sd, paired, emph_words, other_words in INTERPLAY_ROWS:
+            row = next((r for r in dec.rows if needle in r.text()), None)
+            rows[needle] = row
+            if row is None:
+                _viol(rep, "given:element-missing:" + sd, "a hunk line is missing from the output", dict(replay, line=needle))
+                continue
+            t = row.text()
+            for words, role in ((emph_words, "emph"), (other_words, "non-emph" if paired else "plain")):
+                s = denote[sd][role]
+                exp = expected_style(s, j["tc"], {}, sd + "-style")
+                opt = sd + {"plain": "-style", "emph": "-emph-style", "non-emph": "-non-emph-style"}[role]
+                bad = []
+                for w in words:
+                    k = t.find(w)
+                    bad += [c for c in row.cells[k:k + len(w)] if not style_matches(c, exp)] if k >= 0 else []
+                if bad:
+                    rel = _relation(role, *j["triples"][sd])
+                    _viol(rep, "given:style-not-painted-as-given:%s:%s" % (opt, rel),
+                          "the text %s governs (%s of a %s line: %r) does not carry exactly the colours / attributes of the string "
+                          "given to it; the strings of the other options of its line kind: %s"
+                          % (opt, "changed word" if role == "emph" else "unchanged words",
+                             "paired" if paired else "unpaired", " ".join(words), rel),
+                          dict(replay, option=opt, given=s, line=needle, relation=rel,
+                               expected=T.style_key(*[e if not (isinstance(e, tuple) and e and e[0] == "quantised") else ("rgb",) + e[1]
+                                                      for e in exp[:2]], exp[2]),
+                               got=[T.style_key(c.fg, c.bg, c.attrs) for c in bad[:3]]))
+        # zero lines
+        zrow = next((r for r in dec.rows if r.text().startswith("zeroq0")), None)
+        zexp = expected_style(j["assign"]["zero-style"], j["tc"], {}, "zero-style")
+        if zrow is None or [c for c in zrow.cells[:6] if not style_matches(c, zexp)]:
+            _viol(rep, "given:style-not-painted-as-given:zero-style:with-hunk-triples",
+                  "an unchanged line does not carry exactly the colours / attributes of the string given to zero-style",
+                  dict(replay, option="zero-style", given=j["assign"]["zero-style"]))
+        # model requests: one per hunk line
+        if annotation is None:
+            continue
+        ids, given = {}, []
+        for o, v in sorted(j["assign"].items()):
+            sd = o.split("-")[0]
+            if v.endswith("-style") and " " not in v:
+                v = j["assign"][v]
+            ids.setdefault(_denotation(v), (len(ids) + 1, v))
+            given.append("%s=%d:000:0" % (o, ids[_denotation(v)][0]))
+        for sd in ("minus", "plus"):                  # an option not given: X-non-emph-style defaults to a reference to X-style
+            if sd + "-non-emph-style" not in j["assign"]:
+                given.append("%s-non-emph-style=%d:000:0" % (sd, ids[_denotation(j["assign"][sd + "-style"])][0]))
+        by_id = {i: v for i, v in ids.values()}
+        for needle, sd, paired, _, _ in INTERPLAY_ROWS:
+            line = next(l for ms, ps in INTERPLAY_HUNKS for l in (ms if sd == "minus" else ps) if needle in l)
+            secs, homolog = annotation[(sd, line)]
+            if rows.get(needle) is None:
+                continue
+            mreqs.append("guards.line %s %d %s %s" % (sd.capitalize(), 1 if homolog else 0,
+                                                      ",".join(("E" if e else "N") + ("1" if not t.strip() else "0") for e, t in secs) or "-",
+                                                      ",".join(given)))
+            mctx.append((j, replay, needle, sd, secs, rows[needle], by_id))
+    if mreqs:
+        ans, log = _guards_model(mreqs) if ctx.drivers_ok else (None, "drivers not built")
+        if ans is None:
+            rep.corr_case("guards.line", False, dict(error="model runner failed", log=log))
+        else:
+            for (j, replay, needle, sd, secs, row, by_id), req, a in zip(mctx, mreqs, ans):
+                agree, detail = False, None
+                m = re.fullmatch(r"ok (.*) \| (.*)", a)
+                if m and not m.group(1).startswith("ERR"):
+                    painted = [int(x.split(":")[0]) for x in m.group(1).split(",")] if m.group(1) != "-" else []
+                    if len(painted) == len(secs):
+                        t, pos, bad = row.text(), 0, []
+                        for pid, (e, text) in zip(painted, secs):
+                            for ch in text.rstrip("\n"):
+                                cell = row.cells[pos] if pos < len(row.cells) else None
+                                exp = expected_style(by_id[pid], j["tc"], {}, sd + "-style") if pid in by_id else None
+                                if cell is None or cell.ch != ch or (exp is not None and not style_matches(cell, exp)):
+                                    bad.append((pos, ch, by_id.get(pid), T.style_key(cell.fg, cell.bg, cell.attrs) if cell else None))
+                                pos += 1
+                        agree, detail = not bad, bad[:4]
+                rep.count("guards.line:governs-" + ("defined" if m and not m.group(2).startswith("ERR") else "depends-on-configured-values"))
+                rep.corr_case("guards.line", agree, dict(case=dict(replay, line=needle), request=req, model=a,
+                                                         differs=[list(map(str, d)) for d in detail] if detail else None))
+
+    # (2) groups of other options given one and the same string, on DIFF (binary_oracle's elements)
+    if baseline is None:
+        return
+    groups = {"line-numbers": ["line-numbers-minus-style", "line-numbers-zero-style", "line-numbers-plus-style"],
+              "line-numbers-sides": ["line-numbers-left-style", "line-numbers-right-style", "line-numbers-zero-style"],
+              "hunk-header": ["hunk-header-style", "hunk-header-file-style", "hunk-header-line-number-style"],
+              "commit-file": ["commit-style", "file-style"],
+              "zero-minus-plus": ["zero-style", "minus-style", "plus-style"],
+              "emph-both-sides": ["minus-emph-style", "plus-emph-style", "minus-style", "plus-style"],
+              "whitespace-plus": ["whitespace-error-style", "plus-style", "plus-emph-style"],
+              "file-hunk-header-file": ["file-style", "hunk-header-file-style"]}
+    gjobs = []
+    for gname, opts in sorted(groups.items()):
+        for variant in ("all-equal", "first-two-equal", "all-but-first-equal"):
+            for tc in (0, 1):
+                a, b = gen_plain_style(rng), gen_plain_style(rng)
+                if variant == "all-equal":
+                    assign = {o: a for o in opts}
+                elif variant == "first-two-equal":
+                    assign = {o: (a if k < 2 else b) for k, o in enumerate(opts)}
+                else:
+                    assign = {o: (b if k == 0 else a) for k, o in enumerate(opts)}
+                gjobs.append((gname, variant, assign, tc))
+
+    def gargs(assign, tc):
+        a = list(BASE_ARGS) + ["--true-color=" + ("always" if tc else "never")]
+        hh = assign.get("hunk-header-style")
+        a += ["--%s=%s" % (o, s) for o, s in sorted(assign.items()) if o != "hunk-header-style"]
+        return a + ["--hunk-header-style=%s file line-number" % (hh if hh is not None else "normal")]
+    gres = parallel_map(lambda g: ctx.run_delta(gargs(g[2], g[3]), DIFF), gjobs)
+    for (gname, variant, assign, tc), (rc, out, err) in zip(gjobs, gres):
+        replay = dict(kind="binary", args=gargs(assign, tc), stdin="DIFF", true_color=tc, group=gname, variant=variant)
+        rep.case(key=("equal-strings", gname, variant, tuple(sorted(assign.items())), tc), nontrivial=True,
+                 sample=dict(op="equal-strings", group=gname, variant=variant, assign=assign, true_color=tc, rc=rc))
+        rep.count("equal-strings:" + gname)
+        if rc != 0:
+            _viol(rep, "given:style-rejected", "delta fails on style strings of the grammar", dict(replay, rc=rc))
+            continue
+        dec = T.decode(out)
+        for o, s in assign.items():
+            exp = expected_style(s, tc, baseline[tc], o)
+            cells = find_cells(dec, o)
+            if not cells:
+                _viol(rep, "given:element-missing:" + o, "painted element not found in the output", dict(replay, option=o))
+                continue
+            bad = [c for c in cells if not style_matches(c, exp)]
+            if bad:
+                _viol(rep, "given:style-not-painted-as-given:%s:shares-string-with:%s" % (o, gname),
+                      "text painted with the option does not carry exactly the colours / attributes of its string when other "
+                      "style options are given the same (or another) string",
+                      dict(replay, option=o, given=s, assign=assign, got=[T.style_key(c.fg, c.bg, c.attrs) for c in bad[:3]]))
+
+
 def run(ctx, rep):
     rep.rule = ("style strings: exhaustive <=3 tokens over a 14-word vocabulary (attributes, omit/raw, named, bright, "
                 "number, #rrggbb, normal/auto/syntax), all 256 palette numbers as fg and bg, random #rrggbb, random "
@@ -1599,7 +1990,8 @@ def run(ctx, rep):
         display_property_oracle(ctx, rep, cases, impl)
         corr_config(ctx, rep, mdl, orc)
     invariance_oracle(ctx, rep, orc)
-    binary_oracle(ctx, rep)
+    baseline = binary_oracle(ctx, rep)
+    other_options_oracle(ctx, rep, baseline)
     depth_uniformity_oracle(ctx, rep)
     indirect_styles_oracle(ctx, rep)
     given_style_oracle(ctx, rep)
@@ -1620,6 +2012,16 @@ def replay(ctx, rep, obj):
         rc, out, err = ctx.run_delta(case["args"], DECO_STDIN[case["stdin"]], env=case.get("env") or {})
         print("replay rc=%s  (%s = %r, %s = %r, %s)" % (rc, case["option"], case["style"], case["decoration_option"],
                                                         case["decoration"], case["source"]))
+        print(out.decode("utf-8", "replace"))
+        for r in T.decode(out).rows:
+            print(repr(r.text()), r.runs())
+    elif case.get("kind") == "interplay":
+        if case.get("gitconfig"):
+            _home_with_gitconfig(os.path.basename(case["env"]["HOME"])[len("home-c12-"):], case["gitconfig"])
+        rc, out, err = ctx.run_delta(case["args"], INTERPLAY_DIFF, env=case.get("env") or {})
+        print("replay rc=%s  patterns=%s  %s" % (rc, case.get("patterns"), case.get("source")))
+        for o, v in sorted(case["assign"].items()):
+            print("  %s = %r" % (o, v))
         print(out.decode("utf-8", "replace"))
         for r in T.decode(out).rows:
             print(repr(r.text()), r.runs())
